@@ -108,6 +108,7 @@ func prepare(verifDir, repoDir string) *Env {
 		harnessFail("no Go files under %s", repoDir)
 	}
 	e.TreeDig = dig
+	instr.BaselineCmpInts = loadBaselineCmp(verifDir)
 	rep, err := instr.Instrument(plain, lib, e.SimDir)
 	if err != nil {
 		harnessFail("instrumenter: %v", err)
@@ -222,3 +223,18 @@ func prepareVariant(e *Env, name string, knobs []instr.Knob, weak []instr.HashFu
 }
 
 func prepareSmall(e *Env, knobs []instr.Knob) error { return prepareVariant(e, "small", knobs, nil, 0) }
+
+func loadBaselineCmp(verifDir string) map[int64]bool {
+	data, err := os.ReadFile(filepath.Join(verifDir, "corpus", "baseline_cmpints.lst"))
+	if err != nil {
+		return nil
+	}
+	m := map[int64]bool{}
+	for _, l := range strings.Fields(string(data)) {
+		var v int64
+		if _, err := fmt.Sscan(l, &v); err == nil {
+			m[v] = true
+		}
+	}
+	return m
+}
